@@ -49,13 +49,15 @@ Qed.
 Lemma list_eqb_line_refl (t : text) : list_eqb line_eqb t t = true.
 Proof. induction t; cbn; auto. now rewrite line_eqb_refl. Qed.
 
-(** For every case whose recorded inputs are valid, the model's annotation satisfies the
-    whole property (one origin per line, text = file, contains the line, ancestor, not
-    carried over from an edge target, unresolved only outside the domain). *)
+(** For every case whose recorded inputs are valid, the model's annotation after EVERY
+    [compute] call satisfies the whole property (one origin per line, text = file, contains
+    the line, ancestor, not carried over from an edge target, unresolved only at a missing
+    edge target or the start). *)
 Theorem model_ok (c : case) : inputs_ok c = true ->
-  prop_ok c (model_origins c) (case_text c (N.to_nat (c_start c))) = true.
+  forall os, In os (model_origins c) ->
+  prop_ok c os (case_text c (N.to_nat (c_start c))) = true.
 Proof.
-  intros Hin. unfold inputs_ok in Hin. rewrite !andb_true_iff in Hin.
+  intros Hin os Hos. unfold inputs_ok in Hin. rewrite !andb_true_iff in Hin.
   destruct Hin as [[[[Hwf Hpc] Hsm] Hst] Hnodes].
   apply wf_graphb_spec in Hwf. apply pc_okb_spec in Hpc. apply N.leb_le in Hsm.
   apply Nat.ltb_lt in Hst. rewrite forallb_forall in Hnodes.
@@ -67,12 +69,19 @@ Proof.
   { intros nd e Hnd He. specialize (Hnodes nd Hnd). rewrite andb_true_iff in Hnodes.
     destruct Hnodes as [_ H]. rewrite forallb_forall in H. specialize (H e He).
     rewrite !andb_true_iff in H. tauto. }
-  destruct (annotate_good (case_matching c) false (case_text c) start (case_nodes c)
+  unfold model_origins in Hos. apply in_map_iff in Hos. destruct Hos as [st [<- Hst']].
+  unfold model_states, case_init in Hst'. fold start in Hst'.
+  destruct (run_phases_good (case_matching c) false (case_text c) start (case_nodes c)
               (fun a d => is_anc G a d = true)
-              (is_anc_refl G Hwf Hpc Hsm start Hst)
-              (is_anc_trans G Hwf Hpc Hsm) Hedges
-              (length (case_text c start)) eq_refl) as [Hlen Hgood].
-  unfold prop_ok. fold start. unfold model_origins. fold start.
+              (is_anc_trans G Hwf Hpc Hsm) Hedges (case_phases c)
+              (init_state start (length (case_text c start)))
+              (fun ns nd H1 H2 => proj2 (in_concat _ _) (ex_intro _ ns (conj H1 H2)))
+              (init_inv (case_matching c) (case_text c) start (case_nodes c)
+                 (fun a d => is_anc G a d = true) (is_anc_refl G Hwf Hpc Hsm start Hst)
+                 (length (case_text c start)) eq_refl)
+              st Hst') as [[_ Hgood] Hlen].
+  unfold init_state in Hlen. cbn [st_olm] in Hlen. rewrite map_length, seq_length in Hlen.
+  unfold prop_ok. fold start.
   rewrite !andb_true_iff. split; [split|].
   - apply Nat.eqb_eq. exact Hlen.
   - apply list_eqb_line_refl.
@@ -150,24 +159,51 @@ Proof.
     + eapply IH; eauto.
 Qed.
 
-(** For every case whose inputs and stream are valid, the model (after the repair) leaves
-    unresolved only lines that ended in a commit outside the searched range. *)
-Theorem model_strict_ok (c : case) : stream_okb c = true ->
-  strict_ok c (model_origins c) = true.
+Lemma phase_okb_spec st ns : phase_okb st ns = true ->
+  (forall nd, In nd ns -> is_mt ns (fst nd) = false) /\
+  (forall pre nd post, ns = pre ++ nd :: post ->
+     forall e, In e (snd nd) -> is_missing e = false -> In (fst e) (map fst post)) /\
+  (forall c, In c (keys (st_srcs st)) -> In c (map fst ns)).
 Proof.
-  intros Hs. unfold stream_okb in Hs. rewrite !andb_true_iff in Hs.
-  destruct Hs as [[[_ Hmt] Hcl] Hst].
-  unfold strict_ok. apply forallb_forall. intros o Ho.
-  apply In_nth_error in Ho. destruct Ho as [s Ho].
-  assert (Hstart : In (N.to_nat (c_start c)) (map fst (case_nodes c))).
-  { apply existsb_exists in Hst. destruct Hst as [nd [Hnd Heq]]. apply Nat.eqb_eq in Heq.
-    rewrite <- Heq. now apply in_map. }
-  assert (Hmt' : forall nd, In nd (case_nodes c) -> is_mt (case_nodes c) (fst nd) = false).
-  { intros nd Hnd. rewrite forallb_forall in Hmt. specialize (Hmt nd Hnd).
-    apply negb_true_iff in Hmt. exact Hmt. }
-  destruct (annotate_strict (case_matching c) (case_nodes c) (N.to_nat (c_start c)) Hmt'
-              (closedb_spec _ Hcl) (length (case_text c (N.to_nat (c_start c)))) Hstart s o Ho)
-    as [Hok|Hm].
-  - now rewrite Hok.
-  - apply orb_true_iff. right. exact Hm.
+  unfold phase_okb. rewrite !andb_true_iff. intros [[[_ Hmt] Hcl] Hk]. split; [|split].
+  - intros nd Hnd. rewrite forallb_forall in Hmt. specialize (Hmt nd Hnd).
+    apply negb_true_iff in Hmt. exact Hmt.
+  - now apply closedb_spec.
+  - intros c0 Hc. unfold keys in Hc. apply in_map_iff in Hc. destruct Hc as [kv [<- Hkv]].
+    rewrite forallb_forall in Hk. specialize (Hk kv Hkv). apply existsb_exists in Hk.
+    destruct Hk as [nd [Hnd Heq]]. apply Nat.eqb_eq in Heq. rewrite <- Heq. now apply in_map.
+Qed.
+
+(** For every case whose streams are valid, after EVERY [compute] call the model (as
+    repaired) leaves unresolved only lines that ended in a commit outside the range that call
+    searched, and only such commits are pending. *)
+Theorem phases_strict m : forall phases st, ready st -> stream_okb_from m st phases = true ->
+  forall k ns st', nth_error phases k = Some ns ->
+  nth_error (run_phases m false st phases) k = Some st' ->
+  strict_ok ns (st_olm st') = true /\ pending_ok ns (map fst (st_srcs st')) = true.
+Proof.
+  induction phases as [|ns0 t IH]; intros st Hr Hs k ns st' Hk Hst; [destruct k; discriminate|].
+  cbn [stream_okb_from] in Hs. apply andb_true_iff in Hs. destruct Hs as [Hp Hs].
+  destruct (phase_okb_spec st ns0 Hp) as [H1 [H2 H3]].
+  assert (Hd := run_phase_strict m ns0 H1 H2 st Hr H3).
+  cbn [run_phases] in Hst. destruct k as [|k]; cbn in Hk, Hst.
+  - inversion Hk; inversion Hst; subst. split.
+    + unfold strict_ok. apply forallb_forall. intros o Ho. apply In_nth_error in Ho.
+      destruct Ho as [s Ho]. destruct (done_strict ns _ Hd s o Ho) as [Hok|Hm].
+      * now rewrite Hok.
+      * apply orb_true_iff. right. exact Hm.
+    + unfold pending_ok. apply forallb_forall. intros c0 Hc. destruct Hd as [_ [Hall _]].
+      exact (Hall c0 Hc).
+  - exact (IH _ (done_ready ns0 _ Hd) Hs k ns st' Hk Hst).
+Qed.
+
+Theorem model_strict_ok (c : case) : stream_okb c = true ->
+  0 < length (case_text c (N.to_nat (c_start c))) ->
+  forall k ns st, nth_error (case_phases c) k = Some ns ->
+  nth_error (model_states c) k = Some st ->
+  strict_ok ns (st_olm st) = true /\ pending_ok ns (map fst (st_srcs st)) = true.
+Proof.
+  intros Hs Hpos k ns st Hk Hst.
+  exact (phases_strict (case_matching c) (case_phases c) (case_init c)
+           (init_ready _ _ Hpos) Hs k ns st Hk Hst).
 Qed.
